@@ -43,9 +43,12 @@ LEVEL_NOTE = (
     "empymod.model.tem. Partial: extrap_imag_monotone_partial assumes the PCHIP end slopes lie in "
     "the Fritsch-Carlson box; that scipy's slopes do is validated against scipy on generated "
     "knots, not proved. NaN frequencies are outside the model (total order). Rounding not "
-    "modelled. Observation classified as latent defect: the pass-through branch of interpolate() "
-    "is selected by len(freq_coarse) == len(freq_required) "
-    "(same_length_input_freq_raises / _misplaces).")
+    "modelled. History: before the fix the pass-through branch of interpolate() was selected by "
+    "len(freq_coarse) == len(freq_required) (interpolate_unfixed_same_length_raises / "
+    "_misplaces); the model now requires equality of the frequency lists "
+    "(differing_coarse_is_interpolated) and the generated cases include input_freq of the same "
+    "length as freq_required. Standard DLF (pts_per_dec=0) is outside C20's quantifier "
+    "(lagged / splined dlf, fftlog) and outside the 1-D model: documented exclusion.")
 TRUSTED = [
     "Model/Fourier.v as the reading of emg3d/time.py (validated by the correspondence on every run)",
     "scipy PchipInterpolator / InterpolatedUnivariateSpline, empymod check_time / tem as oracles",
@@ -255,7 +258,7 @@ def compare_case(case, r, answers, dis, brief):
         return 'error'
     fd = np.array([complex(a, b) for a, b in r['fdata']])
     fc = np.array(comp)
-    passthrough = len(coarse) == len(r['req'])
+    passthrough = coarse == r['req']          # np.array_equal(freq_coarse, freq_required)
     # the oracle calls the MODEL prescribes, evaluated with scipy
     want = np.zeros(out.size, complex)
     label = 'passthrough' if passthrough else 'spline'
@@ -507,7 +510,15 @@ def property_on_case(rng, case):
     if (out[above] != 0).any():
         return dict(base, signature='non-zero value above fmax',
                     observed=str(out[above][:3]), required='0j')
-    if case['coarse'] == 'none':
+    coarse = np.array(r['coarse'])
+    if not np.array_equal(coarse, req) and within.any() and fd.size >= 4:
+        from scipy.interpolate import InterpolatedUnivariateSpline as S
+        want = (S(np.log(comp), fd.real)(np.log(req[within]))
+                + 1j * S(np.log(comp), fd.imag)(np.log(req[within])))
+        if np.max(np.abs(out[within] - want)) > 1e-7 * max(1.0, np.max(np.abs(want))):
+            return dict(base, signature=SAMELEN_HIT,
+                        observed=str(out[within][:3]), required=str(want[:3]))
+    if np.array_equal(coarse, req):
         if not np.array_equal(out[within], fd) or not np.array_equal(req[within], comp):
             return dict(base, signature='data not passed through unchanged at coinciding frequencies',
                         observed=str(out[within][:3]), required=str(fd[:3]))
@@ -528,10 +539,24 @@ def property_on_case(rng, case):
 def search(ctx, broken):
     rng = ctx.rng
     n = 150 if ctx.thorough else 60
+    # the witness of interpolate_unfixed_same_length_misplaces on the implementation
+    try:
+        d = same_length_demo()
+        if d and d['placed_unchanged'] and d['max_rel_error_vs_smooth_truth'] > 1e-3:
+            return [dict(kind='same_length_input_freq', signature=SAMELEN_HIT, **d,
+                         input="time=logspace(-1,1,5), fmin=0.01, fmax=10, ft='fftlog', "
+                               "ftarg={'pts_per_dec':5,'add_dec':[-1,1],'q':0}, "
+                               "input_freq=1.3*freq_required, fdata=1/(1+1j*freq_compute)",
+                         observed="interpolate(fdata)[ifreq_interpolate] == fdata (data computed "
+                                  f"at {d['freq_compute_0']:.5g} Hz ... written at "
+                                  f"{d['freq_interpolate_0']:.5g} Hz ...), rel. error "
+                                  f"{d['max_rel_error_vs_smooth_truth']:.3g}",
+                         required="spline interpolation from freq_compute to freq_interpolate "
+                                  "(freq_coarse differs from freq_required)")]
+    except Exception as e:      # noqa
+        ctx.notes.append('same-length probe crashed: ' + repr(e))
     for _ in range(n):
         case = complete_case(rng, gen_case(rng))
-        if case['coarse'] == 'input_same_len':
-            continue                    # recorded separately (known_checks)
         h = property_on_case(rng, case)
         if h:
             return [h]
@@ -541,13 +566,17 @@ def search(ctx, broken):
 
 def replay(ctx, payload):
     fi = payload.get('failing_input')
+    if fi and fi.get('kind') == 'same_length_input_freq':
+        d = same_length_demo()
+        return not (d and d['placed_unchanged'])
     if not fi or fi.get('kind') != 'fourier':
         return False
     return property_on_case(ctx.rng, fi['case']) is None
 
 
 # ---- observation: pass-through chosen by length only ------------------------
-SAMELEN_SIG = "C20: interpolate() selects pass-through by len(freq_coarse) == len(freq_required)"
+SAMELEN_SIG = "C20: interpolate() selects pass-through by len(freq_coarse) == len(freq_required)"  # historical
+SAMELEN_HIT = "data passed through at required frequencies they were not computed for"
 
 
 def same_length_demo():
@@ -581,22 +610,6 @@ def same_length_demo():
 
 
 def known_checks(ctx):
-    try:
-        d = same_length_demo()
-    except Exception as e:      # noqa
-        ctx.notes.append('same-length demo crashed: ' + repr(e))
-        return []
-    if d is None:
-        return []
-    rep = d['placed_unchanged'] and d['max_rel_error_vs_smooth_truth'] > 1e-3
-    what = ("Fourier.interpolate takes the pass-through branch whenever input_freq has the LENGTH "
-            f"of freq_required: data computed at {d['freq_compute_0']:.4g} Hz ... are written "
-            f"unchanged at {d['freq_interpolate_0']:.4g} Hz ... (rel. error "
-            f"{d['max_rel_error_vs_smooth_truth']:.2g} on a smooth spectrum); with different "
-            "in-band counts a ValueError is raised instead "
-            "(Props/C20.v same_length_input_freq_misplaces / _raises)")
-    listed = any(k['signature'] == SAMELEN_SIG for k in V.known_for(ID))
-    if rep and not listed:
-        ctx.notes.append('FINDING (reproduced, not yet listed in known_findings.json): ' + what)
-        return []
-    return [(SAMELEN_SIG, rep, what)]
+    """Repaired defect (fix: pass-through only when freq_coarse equals freq_required):
+    nothing is listed any more; a reproduction is a violation reported by search()."""
+    return []
